@@ -2,7 +2,8 @@
    merges these into Props/C20.v (add T1.T1Store T1.T1Ctx T1.T1CtxProofs T1.T1Model T1.T1Bytes
    T1.T1ProofsBase T1.T1ProofsSample T1.T1ProofsPass T1.T1ProofsSeq T1.T1ProofsFinal
    T1.T1ProofsOj T1.T1ProofsBytes T1.T1ProofsSim T1.T1ProofsMqRt T1.T1ProofsComp T1.T1ProofsCompThm
-   T1.T1ProofsRestart T1.T1ProofsTermEnc T1.T1ProofsTermall to its Require line).
+   T1.T1ProofsRestart T1.T1ProofsTermEnc T1.T1ProofsTermall T1.T1ProofsPterm T1.T1ProofsLazyEnc
+   T1.T1ProofsLazyTerm to its Require line; Require V.MQ.MqProofsSeg).
 
    STATUS
    * Context tables = ISO/IEC 15444-1 Annex D (Tables D.1 - D.4): COMPLETE, over every entry of
@@ -11,19 +12,25 @@
      w, h; not only 1..64), every integer orientation and style word (hence all 64 style
      combinations), every fractional-bit count fb >= 0, every pass count np, every coefficient
      with |v| < 2^31.  No reference to the arithmetic coder.
-   * Bytes through the real MQ coder model (t1_roundtrip = DecodeLayeredWithMode(EncodeLayered(block),
+   * Bytes through the real coder models (t1_roundtrip = DecodeLayeredWithMode(EncodeLayered(block),
      Rate values) on the models): PROVED, unbounded in block size, orientation, coefficients and
-     fb, for 16 of the 64 style combinations - every style without LAZY (0x01) and PTERM (0x10):
-     default, RESET, TERMALL, VSC, SEGSYM in any combination (C20_t1_bytes_roundtrip_default,
-     _single_codeword, _termall) - and for PTERM without LAZY/TERMALL when fb >= 1
-     (C20_t1_bytes_roundtrip_pterm_fb).  Composition = t1_lockstep + the mq area's joint
-     encoder/decoder simulation (extended here to context resets between passes and to
-     RestartInitEnc segments) + one generic channel-simulation lemma for the decoder model.
-   * Still STATEMENT only (C20_t1_roundtrip_statement): styles with LAZY, and PTERM on a
-     terminated pass (PTERM with TERMALL, or PTERM with fb = 0).  What is missing are two facts
-     about the mq area's coders, stated as C20_t1_missing_erterm_statement and
-     C20_t1_missing_raw_statement; all 64 styles are decided by computation on the bounded domains
-     below and exercised by the correspondence run / Go oracle.
+     fb, for 48 of the 64 style combinations - everything except LAZY (0x01) without TERMALL (0x04):
+       - no LAZY, no TERMALL: one MQ codeword; RESET, VSC, SEGSYM, PTERM in any combination;
+       - TERMALL with or without LAZY: one segment per pass (MQ codeword after RestartInitEnc, or
+         raw bits), Rate values delimit the segments; RESET, VSC, PTERM, SEGSYM in any combination.
+     C20_t1_bytes_roundtrip_unconditional covers the sub-classes where the stream is also proved
+     non-empty (no PTERM on a terminated pass: 24 combinations for every fb, 8 more for fb >= 1);
+     C20_t1_bytes_roundtrip_covered covers all 48 under the hypothesis that EncodeLayered's
+     output is not empty.  That hypothesis is needed for PTERM on a terminated pass only: GetBuffer
+     does not count a final byte 0xFF, so a codeword closed by ErtermEnc can be empty as far as
+     the MQ invariants go (mq area: mq_erterm_segment_refuted), and the decoder rejects empty data.
+     Composition = t1_lockstep + the mq area's joint encoder/decoder simulation (extended here to
+     context resets between passes, RestartInitEnc segments, ErtermEnc) + the mq area's raw
+     segment theorem + one generic channel-simulation lemma for the decoder model.
+   * Still STATEMENT only (C20_t1_roundtrip_statement): LAZY without TERMALL (16 combinations):
+     segments spanning several passes, Rate values of non-terminated passes, segment look-ahead.
+     All 64 styles are decided by computation on the bounded domains below and exercised by the
+     correspondence run / Go oracle.
    * Truncated pass counts: C20_t1_truncation_statement (Definition; not proved; false as coded
      when the pass count stops on a non-terminated bypass pass - excluded in the statement).
 
@@ -38,8 +45,9 @@
      does), but streams from other encoders using VSC would be decoded with the wrong contexts. *)
 From V Require Import Common.Base T1.T1Store T1.T1Ctx T1.T1CtxProofs T1.T1Model T1.T1Bytes
   T1.T1ProofsBase T1.T1ProofsSample T1.T1ProofsPass T1.T1ProofsSeq T1.T1ProofsFinal T1.T1ProofsOj T1.T1ProofsBytes
-  T1.T1ProofsSim T1.T1ProofsMqRt T1.T1ProofsComp T1.T1ProofsCompThm T1.T1ProofsRestart T1.T1ProofsTermEnc T1.T1ProofsTermall.
-Require V.Gen.T1Tables_gen.
+  T1.T1ProofsSim T1.T1ProofsMqRt T1.T1ProofsComp T1.T1ProofsCompThm T1.T1ProofsRestart T1.T1ProofsTermEnc T1.T1ProofsTermall
+  T1.T1ProofsPterm T1.T1ProofsLazyEnc T1.T1ProofsLazyTerm.
+Require V.Gen.T1Tables_gen V.MQ.MqProofsSeg.
 
 (* ---------------------------------------------------------------------------------------
    Context formation = Annex D
@@ -224,15 +232,16 @@ Theorem C20_t1_bytes_roundtrip_single_codeword :
 Proof. exact t1_bytes_roundtrip_single_codeword. Qed.
 Print Assumptions C20_t1_bytes_roundtrip_single_codeword.
 
-(* TERMALL (one codeword segment per pass, FlushToOutput + RestartInitEnc, Rate values delimit
-   the segments, contexts carried over or reset), with any of RESET, VSC, SEGSYM *)
+(* TERMALL without PTERM, with or without LAZY (one segment per pass: MQ codeword after
+   FlushToOutput + RestartInitEnc, or raw bits after BypassFlushEnc; the Rate values delimit the
+   segments; contexts carried over or reset), with any of RESET, VSC, SEGSYM *)
 Theorem C20_t1_bytes_roundtrip_termall :
   forall (wn hn : nat) (orient style fb : Z) (data : list Z),
-  Z.land style 4 <> 0 /\ Z.land style 17 = 0 ->
+  Z.land style 4 <> 0 -> Z.land style 16 = 0 ->
   length data = (wn * hn)%nat -> data_ok data -> 0 <= fb ->
   (forall v, In v data -> exists c, v = c * 2 ^ fb) ->
   t1_roundtrip wn hn orient style fb data = Ok data.
-Proof. exact t1_bytes_roundtrip_termall. Qed.
+Proof. exact t1_bytes_roundtrip_lazyterm. Qed.
 Print Assumptions C20_t1_bytes_roundtrip_termall.
 
 (* PTERM without LAZY / TERMALL when bit-plane 0 is not coded (fb >= 1; the top-level encoder
@@ -246,20 +255,43 @@ Theorem C20_t1_bytes_roundtrip_pterm_fb :
 Proof. exact t1_bytes_roundtrip_single_codeword_fb. Qed.
 Print Assumptions C20_t1_bytes_roundtrip_pterm_fb.
 
-(* the three together *)
-Theorem C20_t1_roundtrip_partial :
+(* the classes above together (stream proved non-empty) *)
+Theorem C20_t1_bytes_roundtrip_unconditional :
   forall (wn hn : nat) (orient style fb : Z) (data : list Z),
-  style_proved style fb ->
+  style_unconditional style fb ->
   length data = (wn * hn)%nat -> data_ok data -> 0 <= fb ->
   (forall v, In v data -> exists c, v = c * 2 ^ fb) ->
   t1_roundtrip wn hn orient style fb data = Ok data.
-Proof. exact t1_bytes_roundtrip_partial. Qed.
-Print Assumptions C20_t1_roundtrip_partial.
+Proof. exact t1_bytes_roundtrip_unconditional. Qed.
+Print Assumptions C20_t1_bytes_roundtrip_unconditional.
+
+(* every style with TERMALL or without LAZY (48 of 64), including PTERM on terminated passes
+   (ErtermEnc), provided the encoder's output is not empty *)
+Theorem C20_t1_bytes_roundtrip_covered :
+  forall (wn hn : nat) (orient style fb : Z) (data : list Z),
+  Z.land style 4 <> 0 \/ Z.land style 1 = 0 ->
+  length data = (wn * hn)%nat -> data_ok data -> 0 <= fb ->
+  (forall v, In v data -> exists c, v = c * 2 ^ fb) ->
+  (forall mb ps bytes,
+     enc_layered wn hn orient style fb (3 * (find_max_bitplane data - fb + 1) - 2) data = Ok (mb, ps, bytes) ->
+     ps <> [] -> bytes <> []) ->
+  t1_roundtrip wn hn orient style fb data = Ok data.
+Proof. exact t1_bytes_roundtrip_covered. Qed.
+Print Assumptions C20_t1_bytes_roundtrip_covered.
+
+(* the hypothesis of _covered holds on a concrete PTERM|TERMALL|LAZY stream *)
+Example C20_t1_bytes_roundtrip_covered_instance :
+  (Z.land 21 4 <> 0 \/ Z.land 21 1 = 0) /\
+  (match enc_layered 1 1 0 21 0 13 [17] with
+   | Ok (mb, ps, bytes) => Some (mb, length ps, forallb p_term ps, bytes) | _ => None end)
+  = Some (4, 13%nat, true, [0; 0; 0; 104; 170]) /\
+  t1_roundtrip 1 1 0 21 0 [17] = Ok [17].
+Proof. split; [left; discriminate|]. vm_compute. split; reflexivity. Qed.
 
 (* hypotheses are satisfiable and the streams are not trivial: a 2x3 block with magnitudes up to
    2^30, fb = 6, style TERMALL|RESET|SEGSYM (73 passes, 73 segments) and style 0 *)
 Example C20_t1_bytes_roundtrip_instance :
-  Z.land 38 4 <> 0 /\ Z.land 38 17 = 0 /\ Z.land 0 21 = 0 /\ style_proved 48 6 /\
+  Z.land 38 4 <> 0 /\ Z.land 38 16 = 0 /\ Z.land 0 21 = 0 /\ style_unconditional 48 6 /\ style_unconditional 39 0 /\
   length [5 * 64; -3 * 64; 0; 9 * 64; 2 ^ 30; - 2 ^ 30] = (2 * 3)%nat /\
   data_ok [5 * 64; -3 * 64; 0; 9 * 64; 2 ^ 30; - 2 ^ 30] /\
   (match enc_layered 2 3 1 38 6 73 [5 * 64; -3 * 64; 0; 9 * 64; 2 ^ 30; - 2 ^ 30] with
@@ -270,13 +302,21 @@ Example C20_t1_bytes_roundtrip_instance :
   = Some (30, 73%nat, false).
 Proof.
   split; [discriminate|]. split; [reflexivity|]. split; [reflexivity|].
-  split; [right; right; split; [reflexivity|lia]|]. split; [reflexivity|].
+  split; [right; right; split; [reflexivity|lia]|]. split; [right; left; split; [discriminate|reflexivity]|]. split; [reflexivity|].
   split; [intros v Hv; cbn in Hv; lia|]. vm_compute. split; reflexivity.
 Qed.
 
-(* the two coder facts the remaining styles need, and the truncation statement (Definitions) *)
-Definition C20_t1_missing_erterm_statement : Prop := mq_erterm_segment_statement.
-Definition C20_t1_missing_raw_statement : Prop := raw_segment_statement.
+(* the two coder facts the PTERM / LAZY styles use, in their corrected form (the first versions
+   were refuted by the mq area), proved there *)
+Theorem C20_t1_erterm_segment : mq_erterm_segment_statement.
+Proof. exact MqProofsSeg.mq_erterm_segment_t1. Qed.
+Print Assumptions C20_t1_erterm_segment.
+
+Theorem C20_t1_raw_segment : raw_segment_statement.
+Proof. exact MqProofsSeg.raw_segment_t1. Qed.
+Print Assumptions C20_t1_raw_segment.
+
+(* the truncation statement (Definition only) *)
 Definition C20_t1_truncation_statement : Prop := t1_truncation_statement.
 
 (* BOUNDED (finite, by computation through the MQ / raw coder models): *)
